@@ -187,6 +187,12 @@ def _run_sim(case):
         if g is not None and deg < 0.2:
             gz = rng.random(nt) < 0.5
             g = g * ((~gz)[:, None] if np.ndim(g) == 2 else (~gz))
+    if g is not None and np.ndim(g) == 2 and g.shape[1] >= 2 and case["sseed"] % 4 == 1:
+        # a gradient that is played on some axes only: an all-zero column (the first, or all
+        # but the last) - e.g. a y-only or z-only gradient on a 2-D / 3-D grid
+        g = np.array(g, copy=True)
+        g[:, :int(rng.integers(1, g.shape[1]))] = 0.0
+        sig += "|axis-off"
     if deg < 0.5:
         x = np.array(x, copy=True)
         x[0] = 0.0                       # first position exactly at the origin
@@ -253,6 +259,30 @@ def _run_sim(case):
                             "reversed result (max difference %.3g): positions are not treated "
                             "independently / something is remembered between calls" % (sim, e),
                             wit, mech="position-independence:" + sim, obs=obs)
+    # spatial axes are interchangeable labels: permuting the columns of x and g together leaves
+    # the result unchanged, and an axis on which no gradient is played can be dropped from both
+    if sim in ("abrm_nd", "blochsim") and g is not None and np.ndim(g) == 2 and g.shape[1] >= 2:
+        perm = rng.permutation(g.shape[1])
+        ap, bp = simulate(sim, rf, np.ascontiguousarray(x[:, perm]),
+                          np.ascontiguousarray(g[:, perm]), extra)
+        e = float(max(np.max(np.abs(ap - a)), np.max(np.abs(bp - b))))
+        checks += 1
+        obs["axis_permutation"] = e
+        if not e <= max(1e-11, utol * 10) * (1 + nt / 16):
+            return violated(sig, "%s: permuting the spatial axes of x and g together changes the "
+                            "result by %.3g" % (sim, e), wit, mech="axis-permutation:" + sim,
+                            obs=obs)
+        keep = [d_ for d_ in range(g.shape[1]) if np.any(g[:, d_])]
+        if 0 < len(keep) < g.shape[1]:
+            ad, bd = simulate(sim, rf, np.ascontiguousarray(x[:, keep]),
+                              np.ascontiguousarray(g[:, keep]), extra)
+            e = float(max(np.max(np.abs(ad - a)), np.max(np.abs(bd - b))))
+            checks += 1
+            obs["unused_axis_dropped"] = e
+            if not e <= max(1e-11, utol * 10) * (1 + nt / 16):
+                return violated(sig, "%s: dropping the spatial axes on which no gradient is "
+                                "played changes the result by %.3g" % (sim, e), wit,
+                                mech="unused-axis:" + sim, obs=obs)
     # composition
     if nt >= 2:
         k = int(rng.integers(1, nt))
